@@ -35,6 +35,7 @@ func CheckC08(l *Lab, verifDir string) int {
 		"session": session,
 		"setup":   session[:4],
 		"big":     {f.SymHS(true), f.SymTC("good", ""), f.SymTA(), f.SymCC(f.H1.Addr()), data(4090-10, 3), data(4096-10, 4), data(8192-10, 5), data(65535, 6), SymClose()},
+		"big4x40k": {f.SymHS(true), f.SymTC("good", ""), f.SymTA(), f.SymCC(f.H1.Addr()), data(40000, 21), data(40000, 22), data(40000, 23), data(40000, 24), SymClose()},
 		"small100": func() []Sym {
 			s := append([]Sym(nil), session[:4]...)
 			for i := 0; i < 100; i++ {
